@@ -82,7 +82,7 @@ def main(tier, replay):
         "FromProjData / chained / base-class efficiency table, zero_seg0_end_planes, max_segment_num_to_process, use_subset_sensitivities, use_tofsens, "
         "every legal num_subsets and every subset. One line per (quantity, subset): per-voxel results compared with the Lean model evaluated exactly in Rat "
         "on explicit matrix rows (from a separate matrix object without symmetries/cache) with the derived bound |impl - exact| <= 4*n*2^-24*sum|terms| "
-        "(n = row length(s) + number of contributions to the voxel + 10; sum|terms| taken with |P_bv| + Pmax/16 to allow for the rounding of the ray-traced "
+        "(n = row length(s) + number of contributions to the voxel + 10; sum|terms| taken with |P_bv| + Pmax/2 to allow for the rounding of the ray-traced "
         "matrix elements between the symmetric/cached matrix of the projector and the explicit rows); the value with the model at binary64 and the bound 4*n*2^-24*sum(|y|+|y log e|+|e|) "
         "+ 8*2^-24*|value|. Oracle (harness, double precision, independent of the Lean model): textbook expressions on the explicit rows on the regular region, "
         "gradient-plus-sensitivity minus gradient = sensitivity, sum over subsets = full data, penalised = unpenalised - prior share, all orders of first "
